@@ -15,11 +15,16 @@
    attempt alone is ordered too, which is what the whole-source fallback added by the fix relies on.
    (splice) the five-branch line surgery of _put_src equals the one algebraic text splice (C11's put_src_is_spec), so a
    successful edit leaves exactly the requested splice.
+   (scaffold, models/Scaffold.v) the copy of the source in which a column-0 statement is reparsed alone - the lines above it
+   blanked - receives an edit that starts at or below the statement's first line exactly as the real source does (the copy after
+   the edit IS the blanked new source); an edit above that line is lost in the copy, which is why the incremental path must
+   refuse it (the guard `(ln, col) < (pln, pcol) -> _ReparseAll` of fix bc997e5; every recorded call is checked against it).
    NOT PROVED: that the statement-level reparse in its synthetic wrapper yields the tree a whole-file parse yields (needs
    the grammar), that FST._put_src / _set_ast themselves do not raise half way, root identity. Decided by the
    differential oracle of py/props/C10.py (partial). *)
 From Coq Require Import List Bool Arith.
-From PF Require Import kernel.PyBase kernel.Text models.Atomic gen.RawEffects proofs.AtomicProofs proofs.TextProofs.
+From PF Require Import kernel.PyBase kernel.Text models.Atomic models.Scaffold gen.RawEffects proofs.AtomicProofs proofs.TextProofs
+  proofs.ScaffoldProofs.
 Import ListNotations.
 
 Theorem C10_raw_reparse_paths_are_ordered :
@@ -61,3 +66,24 @@ Example C10_paths_nontrivial :
   existsb (fun p => existsb (fun a => match a with ARaise => true | _ => false end) p) raw_paths = true /\
   ordered [ARaise; AMut; ARaise] = false.
 Proof. repeat split. Qed.
+
+(* ---- the text the statement-level reparse sees (models/Scaffold.v) ---- *)
+Theorem C10_scaffold_copy_receives_the_edit_like_the_real_source : forall L put pln ln col eln ecol,
+  pln <= ln -> ln <= eln -> ln <= length L ->
+  put_spec (scaffold L pln) put ln col eln ecol = scaffold (put_spec L put ln col eln ecol) pln.
+Proof. exact scaffold_sees_edit_below. Qed.
+Print Assumptions C10_scaffold_copy_receives_the_edit_like_the_real_source.
+
+Theorem C10_scaffold_copy_is_the_new_source_below_and_blank_above : forall L put pln ln col eln ecol,
+  pln <= ln -> ln <= eln -> ln <= length L ->
+  skipn pln (put_spec (scaffold L pln) put ln col eln ecol) = skipn pln (put_spec L put ln col eln ecol)
+  /\ blank_above (put_spec (scaffold L pln) put ln col eln ecol) pln = true.
+Proof. exact scaffold_copy_is_new_source_below. Qed.
+Print Assumptions C10_scaffold_copy_is_the_new_source_below_and_blank_above.
+
+Theorem C10_edit_above_the_scaffold_start_is_lost :
+  exists L put pln ln col eln ecol, ln < pln /\
+    blank_above (put_spec L put ln col eln ecol) pln = false /\ blank_above (put_spec (scaffold L pln) put ln col eln ecol) pln = true
+    /\ skipn pln (put_spec (scaffold L pln) put ln col eln ecol) = skipn pln L.
+Proof. exact scaffold_misses_edit_above. Qed.
+Print Assumptions C10_edit_above_the_scaffold_start_is_lost.
